@@ -21,6 +21,36 @@ RULE = ("k-shortest-paths queries on the real core code: SearchAlgorithm::{KspSi
         "Non-trivial = at least 2 routes returned, or an error outcome; distinct by (world, configuration)")
 
 
+RULE_APP = ("end to end through the application: a REAL CompassApp built offline from a generated TOML configuration whose "
+            "[algorithm] section is ksp_single_via (k 1..5, underlying a* / dijkstra, similarity left out / accept_all / "
+            "edge_id_cosine_similarity / distance_weighted_cosine_similarity with thresholds {0,0.3,0.6,0.9,1}, termination left "
+            "out / exact / max_iteration / factor) or yens with k = 1, distance traversal in meters over whole-meter edge lengths "
+            "(so that every state is an exact sum), initial distance 0 / 125 / 1000; CompassApp::run on one JSON query "
+            "(origin_vertex, destination_vertex, one in three with its own `k`: larger / smaller than the configured one, 0, a "
+            "string, a float); route output json. Families first (diamond, two lanes with rungs, every similarity function and "
+            "threshold, query k overriding the configuration both ways, single route, one edge, unreachable, no destination), then "
+            "random two-way grids, random networks made two-way and random digraphs (3-40 vertices). I = the response as an outcome: "
+            "status (`error` text classified), iterations, EVERY route of `route` (null / one object / an ARRAY of route objects) "
+            "hop by hop with access cost, traversal cost and state bit-exact, aa = routes of the same query under AcceptAll (core "
+            "API on the application's own instance); each route's traversal_summary = its last state, route_edges = total edges. "
+            "S = KspRun.KR.check_case in Coq over exact rationals against the network the files describe: 1..k routes (k = the "
+            "query's when present), each a chained origin-destination walk visiting no vertex twice, pairwise distinct, no pair "
+            "more similar than the CONFIGURED threshold, every hop state = fold of the lengths, first route = least cost by a "
+            "checked dual certificate, AcceptAll count >= count, no error on a reachable destination, build error for an "
+            "ill-typed k / missing destination. No model line. Non-trivial = >= 2 routes returned or an error response")
+
+
+def run_app_stream(chk):
+    """stream app_ksp of harness/src/bin/e2e.rs: I vs S only"""
+    binp = vf.build_harness("e2e")
+    n = 150 if chk.tier == "quick" else 1500
+    r = vf.run_stream(binp, "app_ksp", n, chk.seed, os.path.join(chk.outdir, "app_ksp"), replay=chk.replay)
+    # no model line in this stream: the comparison is I vs S (a missing S line is still reported)
+    r.model["M"] = dict(r.model.get("S", {}))
+    chk.add_stream(r, RULE_APP)
+    vf.compare(chk, r, classify=classify, binpath=binp)
+
+
 def classify(case, i, m, s):
     k = case.get("ksp", {})
     keff = k.get("k")
@@ -51,14 +81,31 @@ def run(chk):
         "std HashMap iteration order and priority_queue tie-breaking specified as 'pop removes an entry of minimal "
         "priority'; f64 sums over hash iterators are exact on the generated inputs (unit weights / dyadic distances)",
         "the reading of `numer / (sqrt(a)*sqrt(b)) >= t` over the reals as a comparison of squares (Ksp.cos_ge_Q)",
-        "Rust harness harness/src/searchkit.rs, harness/src/bin/c13.rs and this driver"]
+        "Rust harness harness/src/searchkit.rs, harness/src/bin/c13.rs and this driver",
+        "stream app_ksp: harness/src/bin/e2e.rs (configuration / network writers, extraction of every route of the response's "
+        "`route` value, the AcceptAll count from a core-API run under the application's own instance), coq/Model/E2ERun.v "
+        "(calls KR.check_case, nothing else)"]
     chk.assumptions = [
         "k >= 1, origin and destination distinct, the destination reachable (as in the property)",
         "the two underlying searches return trees satisfying the C01 tree invariant (proved for run_a_star in "
         "Proofs/SearchInv.v under its cost-order hypotheses); forward traversal of graph edges does not fail",
         "first-is-best: relative to the optimality of the underlying search (C02)",
         "Yen's algorithm: theorems for k = 1 only; k >= 2 is the known finding K_yens_k_ge_2"]
-    chk.proofs(extra_targets=["Model/KspRun.vo"])
+    # coq/Model/E2ERun.v (stream app_ksp) also imports the traversal runner of C03, which reads the generated unit / cost /
+    # turn tables: regenerate them here too (a scratch checkout in VERIF_REPO mode starts without coq/Gen/*.v)
+    for name, res in vf.run_translators(which=["turn", "units", "cost"]).items():
+        if not res.get("ok", False):
+            vf.log("translator %s: %s (owned by another check; its previous output is used)" % (name, res.get("msg")))
+    chk.proofs(extra_targets=["Model/KspRun.vo", "Model/E2ERun.vo"])
+    if chk.replay:
+        import json
+        rj = json.load(open(chk.replay))
+        if rj.get("stream") == "app_ksp" or (rj.get("case") or {}).get("stream") == "app_ksp":
+            run_app_stream(chk)
+            if chk.broken_obligation:
+                chk.violation("broken-obligation", "proofs", {"obligations": chk.broken_obligation}, "does not check", "Qed",
+                              found=False, key="obligation")
+            return
     binp = vf.build_harness("c13")
     n = 1200 if chk.tier == "quick" else 25000
     if not chk.replay:
@@ -74,6 +121,8 @@ def run(chk):
     r.stats.setdefault("hist", {})["model_TIE_skipped"] = nt
     chk.add_stream(r, RULE)
     vf.compare(chk, r, classify=classify, binpath=binp)
+    if not chk.replay:
+        run_app_stream(chk)
     if chk.broken_obligation:
         chk.violation("broken-obligation", "proofs", {"obligations": chk.broken_obligation}, "does not check", "Qed",
                       found=False, key="obligation")
